@@ -211,6 +211,10 @@ func checkC04(c *Ctx, r *Report) {
 	// the names and scopes the router enforces and the spec documents are the same strings: nobody rewrites them in place
 	checkNoInPlaceWritesToInputs(c, r, "C04.a", "core/metadata", "generator/swagen", "generator/routes")
 	checkContainerFields(c, r, "C04.a")
+	// every alternative of a route is documented or the generation fails: the functions that turn the
+	// effective security into requirements have no "nothing to do" shortcut
+	ruleNoNewEarlyExit(c, r, "C04.b", "a route's effective alternatives (or the error for an undeclared scheme) are then silently missing from the document while the router still enforces them", "generator/swagen",
+		"generator/swagen/swagen30.generateOperationSecurity", "generator/swagen/swagen31.generateOperationSecurity", "generator/swagen/swagen30.buildSecurityMethod", "generator/swagen/swagen31.buildSecurityMethod")
 	// ... the annotation grammar decides what a @Security name / scope may be, and no new pattern re-spells one on the way into the document (a pattern outside the reviewed table is reported wherever it is)
 	ruleRegexInventory(c, r, "C04.b", "core/annotations")
 }
